@@ -159,7 +159,7 @@ func edgeShape(r *rand.Rand, key uint64) iset {
 		return normalize(sp)
 	}
 	L := uint64(1 + r.Intn(300))
-	switch r.Intn(22) {
+	switch r.Intn(24) {
 	case 0:
 		return mk(65535-L, 65535) // run ending at the upper edge
 	case 1:
@@ -213,6 +213,16 @@ func edgeShape(r *rand.Rand, key uint64) iset {
 		return mk(32768, 65535)
 	case 18: // sparse values at the very top
 		return mk(65530, 65530, 65533, 65533, 65535, 65535)
+	case 19, 20: // one long run plus many isolated values: a run chunk that is efficient only thanks to the long run
+		a := uint64(r.Intn(20000))
+		ln := uint64(500 + r.Intn(3000))
+		pairs := []uint64{a, a + ln}
+		v := a + ln + 2 + uint64(r.Intn(50))
+		for i, n := 0, 50+r.Intn(350); i < n && v < 65530; i++ {
+			pairs = append(pairs, v, v)
+			v += 2 + uint64(r.Intn(40))
+		}
+		return mk(pairs...)
 	default:
 		return chunkShape(r, key)
 	}
@@ -296,6 +306,58 @@ func edgeUniverse32(r *rand.Rand, maxAtoms int) (*Universe, []iset) {
 		u.computeShifts([]int64{0, 65536, -65536, 1, -1, 65535, -65535})
 		u.Name = fmt.Sprintf("edge/keys=%v", keys)
 		return u, gens
+	}
+}
+
+// accUniverse32: a universe for ACCUMULATION histories: one generator made of a few runs (an efficient run
+// chunk), one made of many small groups of isolated values, each group in its own cell, so that a trace can
+// add / remove / or / xor the groups one at a time, dozens of times in a row, on the same chunk.
+func accUniverse32(r *rand.Rand, maxAtoms int) (*Universe, []iset, [][]int) {
+	for {
+		key := pick(r, []uint64{0, 1, 7, 0x7FFF, 0xFFFF})
+		base := key << 16
+		var runs, iso []span
+		pos := uint64(r.Intn(200))
+		for i, n := 0, 8+r.Intn(5); i < n; i++ {
+			ln := uint64(8 + r.Intn(30))
+			runs = append(runs, span{base + pos, base + pos + ln - 1})
+			pos += ln + uint64(20+r.Intn(200))
+		}
+		var cuts []uint64
+		ngroups := 12 + r.Intn(5)
+		pos += 500
+		for g := 0; g < ngroups && pos < 64000; g++ {
+			cuts = append(cuts, base+pos)
+			for i, n := 0, 1+r.Intn(3); i < n; i++ {
+				iso = append(iso, span{base + pos, base + pos})
+				pos += uint64(2 + r.Intn(9))
+			}
+			pos += uint64(20 + r.Intn(300))
+		}
+		cuts = append(cuts, base+pos)
+		gens := []iset{normalize(runs), normalize(iso)}
+		u, err := vennUniverse(32, cuts, gens)
+		if err != nil {
+			panic(err)
+		}
+		if len(u.Atoms) > maxAtoms {
+			continue
+		}
+		u.computeShifts([]int64{0})
+		u.Name = fmt.Sprintf("acc/key=%d", key)
+		// the groups: atoms of generator 2, one list per cell
+		var groups [][]int
+		ga, _ := u.project(gens[1])
+		byCell := map[int][]int{}
+		for _, a := range ga {
+			byCell[u.atom(a).Cell] = append(byCell[u.atom(a).Cell], a)
+		}
+		for c := 1; c <= u.ncell(); c++ {
+			if len(byCell[c]) > 0 {
+				groups = append(groups, byCell[c])
+			}
+		}
+		return u, gens, groups
 	}
 }
 
